@@ -2,13 +2,20 @@ package util
 
 // Conformance driver for property C19 (spec/HierConfig.tla).  Injected with -overlay by /verif/check.
 //
-// A scenario is a configuration tree for one hierarchical setting (which points have the setting,
-// with which value; "<empty>" = written down but not a value) followed by lookups.  The driver loads
-// the tree into viper the way Vouch gets its configuration (a YAML or JSON document, environment
-// variables with the VOUCH prefix and key replacer, explicit settings as bound flags produce them,
-// defaults), calls the real util function for every lookup path and logs what it returned; TLC
-// judges the log against HierConfig.tla.  viper is process-global: scenarios run one after the
-// other and viper is reset between them.
+// A scenario is the configuration HISTORY of one process for one hierarchical setting: a tree
+// (which points have the setting, with which value; "<empty>" = written down but not a value) is
+// loaded, paths are looked up, the configuration changes (SetAt / Unset of one point, Reconfigure =
+// a completely new tree), the same paths are looked up again, and so on - all in this one process,
+// without a restart, with the same path names in every configuration of the history.  The driver
+// loads the tree into viper the way Vouch gets its configuration (a YAML or JSON document,
+// environment variables with the VOUCH prefix and key replacer, explicit settings as bound flags
+// produce them, defaults), changes it live (viper.Set, an environment variable set or removed, the
+// document re-read, a default) or by viper.Reset() and a complete reload, calls the real util
+// function for every lookup path and logs what it returned; TLC judges every Lookup line against
+// the tree in force at that moment (HierConfig.tla).  After every (re)configuration the driver reads
+// every point's key directly from viper and fails (driver error, never a verdict) if viper does not
+// hold what the driver is about to log.  viper is process-global: scenarios run one after the other
+// and viper is reset between them.
 
 import (
 	"bytes"
@@ -40,6 +47,7 @@ type c19Step struct {
 	Tree []c19Entry `json:"tree"`
 	Dflt string     `json:"dflt"`
 	Path []string   `json:"path"`
+	V    string     `json:"v"`
 	Idx  int        `json:"idx"`
 }
 
@@ -194,17 +202,7 @@ func (w *c19World) zero() string {
 }
 
 // ---------------------------------------------------------------------------------------------
-// loading a tree into viper
-
-type c19Loader struct {
-	w       *c19World
-	mode    string
-	doc     map[string]any
-	envs    []string
-	prefix  string
-	hasDoc  bool
-	docType string
-}
+// the configuration of the process: what the driver has put into viper, and how
 
 func c19KeyOf(path []string, key string) string {
 	if len(path) == 0 {
@@ -213,33 +211,88 @@ func c19KeyOf(path []string, key string) string {
 	return strings.Join(path, ".") + "." + key
 }
 
-func (l *c19Loader) put(path []string, key string, v c19Value, how string) {
+type c19Point struct {
+	path []string
+	val  c19Value
+	src  string // doc, set, env, default, env(unset)
+	// an older setting of the point from a source viper ranks lower is still there underneath
+	layered bool
+}
+
+type c19Live struct {
+	t       *testing.T
+	w       *c19World
+	prefix  string
+	envSafe bool // the names of the scenario can be used in environment variables
+	mode    string
+	points  map[string]*c19Point // the tree in force, by joined path
+	known   map[string][]string  // every point the scenario has ever configured
+	doc     map[string]any
+	docType string
+	docText string
+	hasDoc  bool
+	envs    map[string]bool
+	dflt    *c19Value // configured top-level default (as main.go sets for timeout, process-concurrency), if any
+	single  *c19Value // addresses: the singular beacon-node-address, if set
+}
+
+func (lv *c19Live) envName(full string) string {
+	return lv.prefix + "_" + strings.ToUpper(strings.NewReplacer("-", "_", ".", "_").Replace(full))
+}
+
+func (lv *c19Live) docPut(path []string, key string, v c19Value) {
+	m := lv.doc
+	for _, c := range path {
+		next, ok := m[c].(map[string]any)
+		if !ok {
+			next = map[string]any{}
+			m[c] = next
+		}
+		m = next
+	}
+	d := v.doc
+	if dur, ok := d.(time.Duration); ok {
+		d = dur.String()
+	}
+	m[key] = d
+	lv.hasDoc = true
+}
+
+func (lv *c19Live) docDel(path []string, key string) {
+	var chain []map[string]any
+	m := lv.doc
+	for _, c := range path {
+		next, ok := m[c].(map[string]any)
+		if !ok {
+			return
+		}
+		chain = append(chain, m)
+		m = next
+	}
+	delete(m, key)
+	// sections that have become empty go as well
+	for i := len(path) - 1; i >= 0 && len(m) == 0; i-- {
+		delete(chain[i], path[i])
+		m = chain[i]
+	}
+}
+
+// put makes the setting at the point come from the given source.
+func (lv *c19Live) put(path []string, key string, v c19Value, how string) {
 	full := c19KeyOf(path, key)
 	switch how {
 	case "doc":
-		m := l.doc
-		for _, c := range path {
-			next, ok := m[c].(map[string]any)
-			if !ok {
-				next = map[string]any{}
-				m[c] = next
-			}
-			m = next
-		}
-		d := v.doc
-		if dur, ok := d.(time.Duration); ok {
-			d = dur.String()
-		}
-		m[key] = d
-		l.hasDoc = true
+		lv.docPut(path, key, v)
 	case "set":
 		viper.Set(full, v.doc)
 	case "default":
 		viper.SetDefault(full, v.doc)
 	case "env":
-		name := l.prefix + "_" + strings.ToUpper(strings.NewReplacer("-", "_", ".", "_").Replace(full))
+		name := lv.envName(full)
 		os.Setenv(name, v.env)
-		l.envs = append(l.envs, name)
+		lv.envs[name] = true
+	default:
+		lv.t.Fatalf("driver: source %q", how)
 	}
 }
 
@@ -268,32 +321,238 @@ func c19YAML(b *bytes.Buffer, m map[string]any, indent string) {
 	}
 }
 
-func (l *c19Loader) finish(t *testing.T) string {
-	if !l.hasDoc {
-		return ""
+// readDoc (re-)reads the configuration document; viper replaces what it had from the previous one.
+func (lv *c19Live) readDoc() {
+	if !lv.hasDoc {
+		return
 	}
 	var buf bytes.Buffer
-	if l.docType == "json" {
-		data, err := json.Marshal(l.doc)
+	switch {
+	case len(lv.doc) == 0:
+		buf.WriteString("{}\n")
+	case lv.docType == "json":
+		data, err := json.Marshal(lv.doc)
 		if err != nil {
-			t.Fatalf("driver: %v", err)
+			lv.t.Fatalf("driver: %v", err)
 		}
 		buf.Write(data)
-	} else {
-		c19YAML(&buf, l.doc, "")
+	default:
+		c19YAML(&buf, lv.doc, "")
 	}
-	text := buf.String()
-	viper.SetConfigType(l.docType)
+	lv.docText = buf.String()
+	viper.SetConfigType(lv.docType)
 	if err := viper.ReadConfig(bytes.NewReader(buf.Bytes())); err != nil {
-		t.Fatalf("driver: configuration document does not parse: %v\n%s", err, text)
+		lv.t.Fatalf("driver: configuration document does not parse: %v\n%s", err, lv.docText)
 	}
-	return text
 }
 
-func (l *c19Loader) cleanup() {
-	for _, e := range l.envs {
+func (lv *c19Live) clearEnv() {
+	for e := range lv.envs {
 		os.Unsetenv(e)
 	}
+	lv.envs = map[string]bool{}
+}
+
+func (lv *c19Live) pickMode() string {
+	for {
+		m := c19Modes[lv.w.rnd.Intn(len(c19Modes))]
+		if lv.envSafe || (m != "env" && m != "mixed") {
+			return m
+		}
+	}
+}
+
+// reload: viper.Reset() and the tree in force (lv.points) loaded from scratch, each key from one source.
+func (lv *c19Live) reload(mode string) {
+	w := lv.w
+	lv.clearEnv()
+	viper.Reset()
+	lv.mode = mode
+	lv.doc = map[string]any{}
+	lv.hasDoc = false
+	lv.docText = ""
+	lv.docType = "yaml"
+	if mode == "json" || (mode == "mixed" && w.rnd.Intn(2) == 0) {
+		lv.docType = "json"
+	}
+	viper.SetEnvPrefix(lv.prefix)
+	viper.SetEnvKeyReplacer(strings.NewReplacer("-", "_", ".", "_"))
+	viper.AutomaticEnv()
+	keys := make([]string, 0, len(lv.points))
+	for k := range lv.points {
+		keys = append(keys, k)
+	}
+	sort.Strings(keys)
+	for _, k := range keys {
+		pt := lv.points[k]
+		h := mode
+		switch mode {
+		case "yaml", "json":
+			h = "doc"
+		case "mixed":
+			h = []string{"doc", "set", "env", "default"}[w.rnd.Intn(4)]
+		}
+		if h == "default" && len(pt.path) == 0 && lv.dflt != nil {
+			h = "set" // the key's default is the built-in one
+		}
+		if h == "env" && pt.val.env == "" {
+			// an empty environment variable is the same as none: nothing to load
+			pt.src = "env(unset)"
+			continue
+		}
+		lv.put(pt.path, w.key, pt.val, h)
+		pt.src = h
+	}
+	if lv.dflt != nil {
+		viper.SetDefault(w.key, lv.dflt.doc)
+	}
+	if lv.single != nil {
+		how := "doc"
+		if mode == "set" || mode == "env" || mode == "default" {
+			how = mode
+		}
+		lv.put(nil, "beacon-node-address", *lv.single, how)
+	}
+	lv.readDoc()
+}
+
+// setAt changes the configuration in place so that the point has the value; false if only a reload can do it.
+func (lv *c19Live) setAt(path []string, v c19Value) (string, bool) {
+	w := lv.w
+	k := strings.Join(path, ".")
+	cur, layered := "", false
+	if pt, ok := lv.points[k]; ok {
+		cur, layered = pt.src, pt.layered
+	}
+	// what viper prefers over what: explicit setting > environment > document > default
+	cands := []string{"set"}
+	switch cur {
+	case "", "env(unset)", "default":
+		cands = append(cands, "doc", "env")
+		if !(len(path) == 0 && lv.dflt != nil) {
+			cands = append(cands, "default")
+		}
+	case "doc":
+		cands = append(cands, "doc", "env")
+	case "env":
+		cands = append(cands, "env")
+	}
+	var ok []string
+	for _, c := range cands {
+		if c == "env" && !lv.envSafe {
+			continue
+		}
+		if c == "env" && v.env == "" && !(cur == "" || cur == "env(unset)" || (cur == "env" && !layered)) {
+			continue // removing the variable would uncover what is underneath
+		}
+		ok = append(ok, c)
+	}
+	how := ok[w.rnd.Intn(len(ok))]
+	src := how
+	if how == "env" && v.env == "" {
+		os.Unsetenv(lv.envName(c19KeyOf(path, w.key)))
+		src = "env(unset)"
+	} else {
+		lv.put(path, w.key, v, how)
+		if how == "doc" {
+			lv.readDoc()
+		}
+	}
+	if cur != "" && cur != "env(unset)" && how != cur {
+		layered = true
+	}
+	lv.points[k] = &c19Point{path: path, val: v, src: src, layered: layered}
+	return "live:" + src, true
+}
+
+// unset removes the point's setting in place; false if only a reload can do it (explicit settings and defaults stay).
+func (lv *c19Live) unset(path []string) (string, bool) {
+	k := strings.Join(path, ".")
+	pt := lv.points[k]
+	if pt.layered {
+		return "", false
+	}
+	switch pt.src {
+	case "env":
+		os.Unsetenv(lv.envName(c19KeyOf(path, lv.w.key)))
+	case "env(unset)":
+	case "doc":
+		lv.docDel(path, lv.w.key)
+		lv.readDoc()
+	default:
+		return "", false
+	}
+	delete(lv.points, k)
+	return "live:" + pt.src, true
+}
+
+// direct: what viper holds at exactly this key, in the form the expectation is written in ("" = no value).
+func (lv *c19Live) direct(full string) string {
+	switch lv.w.kind {
+	case "addresses":
+		return strings.Join(viper.GetStringSlice(full), " ")
+	case "timeout":
+		if d := viper.GetDuration(full); d != 0 {
+			return d.String()
+		}
+		return ""
+	default:
+		return viper.GetString(full)
+	}
+}
+
+// verify fails the run (driver error) if viper does not hold the tree the driver is about to log.
+func (lv *c19Live) verify(sc int, what string) {
+	for k, path := range lv.known {
+		want := ""
+		if pt, ok := lv.points[k]; ok && pt.val.canon != c19Empty {
+			want = pt.val.env
+			if lv.w.kind == "timeout" {
+				want = pt.val.canon
+			}
+		}
+		full := c19KeyOf(path, lv.w.key)
+		if len(path) == 0 && want == "" && lv.dflt != nil {
+			want = lv.dflt.env
+			if lv.w.kind == "timeout" {
+				want = lv.dflt.canon
+			}
+		}
+		if got := lv.direct(full); got != want {
+			lv.t.Fatalf("driver: scenario %d after %s: viper has %q at %s, the driver believes %q (mode %s)\n%s",
+				sc, what, got, full, want, lv.mode, lv.docText)
+		}
+	}
+}
+
+func (lv *c19Live) tree() ([]c19Entry, map[string]string) {
+	keys := make([]string, 0, len(lv.points))
+	for k := range lv.points {
+		keys = append(keys, k)
+	}
+	sort.Strings(keys)
+	tree := []c19Entry{}
+	sources := map[string]string{}
+	for _, k := range keys {
+		pt := lv.points[k]
+		p := pt.path
+		if p == nil {
+			p = []string{}
+		}
+		tree = append(tree, c19Entry{P: p, V: pt.val.canon})
+		sources[k] = pt.src
+	}
+	return tree, sources
+}
+
+func (lv *c19Live) dfltCanon() string {
+	if lv.dflt != nil {
+		return lv.dflt.canon
+	}
+	if lv.single != nil {
+		return lv.single.canon
+	}
+	return lv.w.zero()
 }
 
 // ---------------------------------------------------------------------------------------------
@@ -334,23 +593,33 @@ func c19Reserved(s string) bool {
 }
 
 // ---------------------------------------------------------------------------------------------
+// plans: the history of a scenario in concrete names and values
+
+type c19Op struct {
+	ev   string // Lookup, SetAt, Unset, Reconfigure
+	path []string
+	val  c19Value             // SetAt
+	tree map[string]*c19Point // Reconfigure: the new tree
+}
 
 type c19Plan struct {
-	kind    string
-	mode    string
-	entries []c19Entry          // concrete paths, canonical values
-	values  map[string]c19Value // by joined path
-	lookups [][]string
-	dflt    *c19Value // configured top-level default, if any
-	single  *c19Value // addresses: the singular beacon-node-address, if set
+	kind     string
+	mode     string
+	envSafe  bool
+	initial  map[string]*c19Point
+	ops      []c19Op
+	topEmpty bool      // some configuration of the history writes the top-level setting down as empty
+	dflt     *c19Value // configured top-level default, if any
+	single   *c19Value // addresses: the singular beacon-node-address, if set
 }
 
 var c19Modes = []string{"yaml", "json", "set", "env", "default", "mixed"}
 
-// planFromLattice turns a TLC-enumerated tree (abstract components a/b, values v1/v2/<empty>) into a plan.
+// planFromLattice turns a TLC-generated history (abstract components a/b, values v1/v2/<empty>) into a plan;
+// a component, and a value, is the same concrete thing in every configuration of the history.
 func c19PlanFromLattice(w *c19World, sc c19Scenario, mode string) *c19Plan {
-	p := &c19Plan{kind: w.kind, mode: mode, values: map[string]c19Value{}}
-	env := mode == "env" || mode == "mixed"
+	p := &c19Plan{kind: w.kind, mode: mode}
+	p.envSafe = mode == "env" || mode == "mixed"
 	names := map[string]string{}
 	nameOf := func(depth int, c string) string {
 		k := fmt.Sprintf("%d/%s", depth, c)
@@ -358,7 +627,7 @@ func c19PlanFromLattice(w *c19World, sc c19Scenario, mode string) *c19Plan {
 			return n
 		}
 		for {
-			n := w.name(depth, env)
+			n := w.name(depth, p.envSafe)
 			dup := c19Reserved(n)
 			for k2, v := range names {
 				if v == n && strings.HasPrefix(k2, fmt.Sprintf("%d/", depth)) {
@@ -379,26 +648,48 @@ func c19PlanFromLattice(w *c19World, sc c19Scenario, mode string) *c19Plan {
 		return out
 	}
 	vals := map[string]c19Value{}
-	for _, st := range sc.Steps {
+	value := func(a string) c19Value {
+		if a == c19Empty {
+			return w.empty()
+		}
+		v, ok := vals[a]
+		if !ok {
+			v = w.fresh()
+			vals[a] = v
+		}
+		return v
+	}
+	treeOf := func(es []c19Entry) map[string]*c19Point {
+		t := map[string]*c19Point{}
+		for _, e := range es {
+			cp := conc(e.P)
+			t[strings.Join(cp, ".")] = &c19Point{path: cp, val: value(e.V)}
+			if len(cp) == 0 && e.V == c19Empty {
+				p.topEmpty = true
+			}
+		}
+		return t
+	}
+	for i, st := range sc.Steps {
 		switch st.Ev {
 		case "Reset":
-			for _, e := range st.Tree {
-				cp := conc(e.P)
-				var v c19Value
-				if e.V == c19Empty {
-					v = w.empty()
-				} else {
-					var ok bool
-					if v, ok = vals[e.V]; !ok {
-						v = w.fresh()
-						vals[e.V] = v
-					}
-				}
-				p.entries = append(p.entries, c19Entry{P: cp, V: v.canon})
-				p.values[strings.Join(cp, ".")] = v
+			if i != 0 {
+				panic("Reset inside a scenario")
 			}
+			p.initial = treeOf(st.Tree)
 		case "Lookup":
-			p.lookups = append(p.lookups, conc(st.Path))
+			p.ops = append(p.ops, c19Op{ev: "Lookup", path: conc(st.Path)})
+		case "SetAt":
+			if len(st.Path) == 0 && st.V == c19Empty {
+				p.topEmpty = true
+			}
+			p.ops = append(p.ops, c19Op{ev: "SetAt", path: conc(st.Path), val: value(st.V)})
+		case "Unset":
+			p.ops = append(p.ops, c19Op{ev: "Unset", path: conc(st.Path)})
+		case "Reconfigure":
+			p.ops = append(p.ops, c19Op{ev: "Reconfigure", tree: treeOf(st.Tree)})
+		default:
+			panic("step " + st.Ev)
 		}
 	}
 	w.topLevel(p)
@@ -408,8 +699,8 @@ func c19PlanFromLattice(w *c19World, sc c19Scenario, mode string) *c19Plan {
 // topLevel decides what the setting is when no level has a value: nothing (zero), a configured
 // default as main.go sets for timeout and process-concurrency, or (addresses) the singular key.
 func (w *c19World) topLevel(p *c19Plan) {
-	if v, ok := p.values[""]; ok && v.canon == c19Empty {
-		// written down as empty at the top level: leave the built-in zero
+	if p.topEmpty {
+		// written down as empty at the top level at some time: leave the built-in zero
 		return
 	}
 	if w.rnd.Intn(3) == 0 {
@@ -423,47 +714,50 @@ func (w *c19World) topLevel(p *c19Plan) {
 	}
 }
 
+func c19CopyTree(t map[string]*c19Point) map[string]*c19Point {
+	out := map[string]*c19Point{}
+	for k, pt := range t {
+		out[k] = &c19Point{path: pt.path, val: pt.val}
+	}
+	return out
+}
+
+// planRandom: a main path of depth 1-6 with settings on some of its prefixes, siblings, cousins and
+// descendants; lookups of every prefix, the sides, and points below; and, for every second scenario, a
+// history of up to three configuration changes over the SAME paths, each followed by the same lookups.
 func c19PlanRandom(w *c19World, mode string) *c19Plan {
 	r := w.rnd
-	p := &c19Plan{kind: w.kind, mode: mode, values: map[string]c19Value{}}
-	env := mode == "env" || mode == "mixed"
+	p := &c19Plan{kind: w.kind, mode: mode, initial: map[string]*c19Point{}}
+	p.envSafe = mode == "env" || mode == "mixed"
 	depth := 1 + r.Intn(6)
 	var main []string
 	for i := 0; i < depth; i++ {
 		for {
-			n := w.name(i, env)
+			n := w.name(i, p.envSafe)
 			if !c19Reserved(n) {
 				main = append(main, n)
 				break
 			}
 		}
 	}
-	add := func(path []string, pEmpty float64) {
-		k := strings.Join(path, ".")
-		if _, dup := p.values[k]; dup {
-			return
-		}
+	draw := func(path []string, pEmpty float64) *c19Point {
 		var v c19Value
 		if r.Float64() < pEmpty {
 			v = w.empty()
+			if len(path) == 0 {
+				p.topEmpty = true
+			}
 		} else {
 			v = w.fresh()
 		}
-		p.entries = append(p.entries, c19Entry{P: append([]string{}, path...), V: v.canon})
-		p.values[k] = v
+		return &c19Point{path: append([]string{}, path...), val: v}
 	}
 	other := func(i int) string {
 		for {
-			n := w.name(i, env)
+			n := w.name(i, p.envSafe)
 			if !c19Reserved(n) && (i >= len(main) || n != main[i]) {
 				return n
 			}
-		}
-	}
-	// settings on the way up
-	for n := 0; n <= depth; n++ {
-		if r.Intn(3) == 0 {
-			add(main[:n], 0.2)
 		}
 	}
 	// siblings, cousins and descendants
@@ -472,32 +766,106 @@ func c19PlanRandom(w *c19World, mode string) *c19Plan {
 		n := r.Intn(depth + 1)
 		side := append(append([]string{}, main[:n]...), other(n))
 		if r.Intn(3) == 0 {
-			side = append(side, w.name(n+1, env))
+			side = append(side, w.name(n+1, p.envSafe))
 		}
 		if c19Reserved(side[len(side)-1]) {
 			continue
 		}
 		sides = append(sides, side)
-		add(side, 0.1)
 	}
+	// a tree: settings on the way up (one prefix in three), and on the sides
+	randomTree := func() map[string]*c19Point {
+		t := map[string]*c19Point{}
+		for n := 0; n <= depth; n++ {
+			if r.Intn(3) == 0 {
+				t[strings.Join(main[:n], ".")] = draw(main[:n], 0.2)
+			}
+		}
+		for _, s := range sides {
+			k := strings.Join(s, ".")
+			if _, dup := t[k]; !dup && r.Intn(5) != 0 {
+				t[k] = draw(s, 0.1)
+			}
+		}
+		return t
+	}
+	p.initial = randomTree()
 	// lookups: every prefix of the main path, the side paths, below the main path, below the sides
+	var lookups [][]string
 	for n := 0; n <= depth; n++ {
-		p.lookups = append(p.lookups, main[:n])
+		lookups = append(lookups, main[:n])
 	}
-	p.lookups = append(p.lookups, sides...)
-	p.lookups = append(p.lookups, append(append([]string{}, main...), other(depth)))
+	lookups = append(lookups, sides...)
+	lookups = append(lookups, append(append([]string{}, main...), other(depth)))
 	for _, s := range sides {
 		if r.Intn(2) == 0 {
-			p.lookups = append(p.lookups, append(append([]string{}, s...), other(len(s))))
+			lookups = append(lookups, append(append([]string{}, s...), other(len(s))))
+		}
+	}
+	look := func() {
+		for _, l := range lookups {
+			p.ops = append(p.ops, c19Op{ev: "Lookup", path: l})
+		}
+	}
+	look()
+	if r.Intn(2) == 0 {
+		cur := c19CopyTree(p.initial)
+		hasValue := func(path []string) bool {
+			pt, ok := cur[strings.Join(path, ".")]
+			return ok && pt.val.canon != c19Empty
+		}
+		for i, m := 0, 1+r.Intn(3); i < m; i++ {
+			var valued, addable [][]string // points that have a value; points without one below a point that has
+			above := false
+			for n := 0; n <= depth; n++ {
+				if hasValue(main[:n]) {
+					valued = append(valued, main[:n])
+				} else if above {
+					addable = append(addable, main[:n])
+				}
+				above = above || hasValue(main[:n])
+			}
+			for _, s := range sides {
+				if hasValue(s) {
+					valued = append(valued, s)
+				}
+			}
+			class := r.Intn(4)
+			switch {
+			case class == 0 && len(addable) > 0: // (a) something more specific appears
+				q := addable[r.Intn(len(addable))]
+				pt := draw(q, 0)
+				cur[strings.Join(q, ".")] = pt
+				p.ops = append(p.ops, c19Op{ev: "SetAt", path: pt.path, val: pt.val})
+			case class == 1 && len(valued) > 0: // (b) a level that was used goes away
+				q := valued[r.Intn(len(valued))]
+				if r.Intn(3) == 0 {
+					pt := draw(q, 1)
+					cur[strings.Join(q, ".")] = pt
+					p.ops = append(p.ops, c19Op{ev: "SetAt", path: pt.path, val: pt.val})
+				} else {
+					delete(cur, strings.Join(q, "."))
+					p.ops = append(p.ops, c19Op{ev: "Unset", path: append([]string{}, q...)})
+				}
+			case class == 2 && len(valued) > 0: // (c) the value of a level that was used changes
+				q := valued[r.Intn(len(valued))]
+				pt := draw(q, 0)
+				cur[strings.Join(q, ".")] = pt
+				p.ops = append(p.ops, c19Op{ev: "SetAt", path: pt.path, val: pt.val})
+			default: // (d) a completely new tree over the same paths
+				cur = randomTree()
+				p.ops = append(p.ops, c19Op{ev: "Reconfigure", tree: c19CopyTree(cur)})
+			}
+			look()
 		}
 	}
 	w.topLevel(p)
 	return p
 }
 
-func (p *c19Plan) call(path []string, boolVar string) string {
+func c19Call(kind string, path []string, boolVar string) string {
 	arg := strings.Join(path, ".")
-	switch p.kind {
+	switch kind {
 	case "addresses":
 		return strings.Join(BeaconNodeAddresses(arg), " ")
 	case "timeout":
@@ -544,74 +912,98 @@ func TestVerifC19(t *testing.T) {
 		default:
 			t.Fatalf("scenario %d does not start with Reset", sc.Sc)
 		}
-
-		// load
-		viper.Reset()
-		ld := &c19Loader{w: w, mode: plan.mode, doc: map[string]any{}, prefix: fmt.Sprintf("VOUCHC19S%d", sc.Sc), docType: "yaml"}
-		if plan.mode == "json" || (plan.mode == "mixed" && w.rnd.Intn(2) == 0) {
-			ld.docType = "json"
+		history := false
+		for _, op := range plan.ops {
+			history = history || op.ev != "Lookup"
 		}
-		viper.SetEnvPrefix(ld.prefix)
-		viper.SetEnvKeyReplacer(strings.NewReplacer("-", "_", ".", "_"))
-		viper.AutomaticEnv()
-		how := func() string {
-			switch plan.mode {
-			case "yaml", "json":
-				return "doc"
-			case "mixed":
-				return []string{"doc", "set", "env", "default"}[w.rnd.Intn(4)]
+		if history {
+			// the lookups between two configuration changes in an order of their own every time
+			for i := 0; i < len(plan.ops); {
+				j := i
+				for j < len(plan.ops) && plan.ops[j].ev == "Lookup" {
+					j++
+				}
+				w.rnd.Shuffle(j-i, func(a, b int) { plan.ops[i+a], plan.ops[i+b] = plan.ops[i+b], plan.ops[i+a] })
+				i = j + 1
 			}
-			return plan.mode
 		}
-		sources := map[string]string{}
-		for _, e := range plan.entries {
-			v := plan.values[strings.Join(e.P, ".")]
-			h := how()
-			if h == "env" && v.env == "" {
-				// an empty environment variable is the same as none: nothing to load
-				sources[strings.Join(e.P, ".")] = "env(unset)"
-				continue
-			}
-			ld.put(e.P, w.key, v, h)
-			sources[strings.Join(e.P, ".")] = h
-		}
-		dflt := w.zero()
-		_, top := plan.values[""]
-		topHow := "doc"
-		if plan.mode == "set" || plan.mode == "env" || plan.mode == "default" {
-			topHow = plan.mode
-		}
-		if plan.dflt != nil && !top {
-			viper.SetDefault(w.key, plan.dflt.doc)
-			dflt = plan.dflt.canon
-		}
-		if plan.single != nil && !top {
-			ld.put(nil, "beacon-node-address", *plan.single, topHow)
-			dflt = plan.single.canon
-		}
-		text := ld.finish(t)
 
-		tree := plan.entries
-		if tree == nil {
-			tree = []c19Entry{}
+		// load the first configuration
+		lv := &c19Live{t: t, w: w, prefix: fmt.Sprintf("VOUCHC19S%d", sc.Sc), envSafe: plan.envSafe,
+			points: plan.initial, known: map[string][]string{}, envs: map[string]bool{},
+			dflt: plan.dflt, single: plan.single}
+		note := func() {
+			for k, pt := range lv.points {
+				lv.known[k] = pt.path
+			}
 		}
-		tr.Emit(verifsupport.Ev{"sc": sc.Sc, "ev": "Reset", "kind": kind, "tree": tree, "dflt": dflt,
-			"mode": plan.mode, "key": w.key, "doc": text, "sources": sources})
-		for _, path := range plan.lookups {
+		note()
+		lv.reload(plan.mode)
+		lv.verify(sc.Sc, "Reset")
+		tree, sources := lv.tree()
+		tr.Emit(verifsupport.Ev{"sc": sc.Sc, "ev": "Reset", "kind": kind, "tree": tree, "dflt": lv.dfltCanon(),
+			"mode": lv.mode, "key": w.key, "doc": lv.docText, "sources": sources})
+
+		for _, op := range plan.ops {
+			path := op.path
 			if path == nil {
 				path = []string{}
 			}
-			func() {
-				defer func() {
-					if r := recover(); r != nil {
-						tr.Emit(verifsupport.Ev{"sc": sc.Sc, "ev": "Crash", "path": path, "panic": fmt.Sprint(r)})
-					}
+			switch op.ev {
+			case "Lookup":
+				func() {
+					defer func() {
+						if r := recover(); r != nil {
+							tr.Emit(verifsupport.Ev{"sc": sc.Sc, "ev": "Crash", "path": path, "panic": fmt.Sprint(r)})
+						}
+					}()
+					got := c19Call(kind, path, w.boolVar)
+					tr.Emit(verifsupport.Ev{"sc": sc.Sc, "ev": "Lookup", "kind": kind, "path": path, "got": got})
 				}()
-				got := plan.call(path, w.boolVar)
-				tr.Emit(verifsupport.Ev{"sc": sc.Sc, "ev": "Lookup", "kind": kind, "path": path, "got": got})
-			}()
+				continue
+			case "SetAt":
+				how, done := "", false
+				if w.rnd.Intn(5) != 0 {
+					how, done = lv.setAt(path, op.val)
+				}
+				if !done {
+					lv.points[strings.Join(path, ".")] = &c19Point{path: path, val: op.val}
+					lv.reload(lv.pickMode())
+					how = "reload:" + lv.mode
+				}
+				note()
+				lv.verify(sc.Sc, "SetAt "+strings.Join(path, "."))
+				tree, sources := lv.tree()
+				tr.Emit(verifsupport.Ev{"sc": sc.Sc, "ev": "SetAt", "kind": kind, "path": path, "v": op.val.canon, "tree": tree,
+					"dflt": lv.dfltCanon(), "how": how, "doc": lv.docText, "sources": sources})
+			case "Unset":
+				if _, ok := lv.points[strings.Join(path, ".")]; !ok {
+					t.Fatalf("driver: scenario %d removes a setting that is not there (%v)", sc.Sc, path)
+				}
+				how, done := "", false
+				if w.rnd.Intn(5) != 0 {
+					how, done = lv.unset(path)
+				}
+				if !done {
+					delete(lv.points, strings.Join(path, "."))
+					lv.reload(lv.pickMode())
+					how = "reload:" + lv.mode
+				}
+				lv.verify(sc.Sc, "Unset "+strings.Join(path, "."))
+				tree, sources := lv.tree()
+				tr.Emit(verifsupport.Ev{"sc": sc.Sc, "ev": "Unset", "kind": kind, "path": path, "tree": tree,
+					"dflt": lv.dfltCanon(), "how": how, "doc": lv.docText, "sources": sources})
+			case "Reconfigure":
+				lv.points = op.tree
+				note()
+				lv.reload(lv.pickMode())
+				lv.verify(sc.Sc, "Reconfigure")
+				tree, sources := lv.tree()
+				tr.Emit(verifsupport.Ev{"sc": sc.Sc, "ev": "Reconfigure", "kind": kind, "tree": tree,
+					"dflt": lv.dfltCanon(), "how": "reload:" + lv.mode, "doc": lv.docText, "sources": sources})
+			}
 		}
-		ld.cleanup()
+		lv.clearEnv()
 		viper.Reset()
 	}
 }
